@@ -144,6 +144,13 @@ def finish(a, src, meta, res, ran, props, caught):
         except Exception:  # noqa: BLE001
             old = {}
     m = dict(old)
+    if a.skip_tests and old.get("confirmation", {}).get("tests_as_baseline"):
+        # keep the full confirmation record (suite run included) of the first
+        # evaluation; this run only adds check results
+        res = dict(old["confirmation"])
+        keep = [l for l in old.get("what_i_ran", [])
+                if not l.startswith("./vcheck")]
+        ran = keep + [l for l in ran if l.startswith("./vcheck")]
     m.update(dict(
         id=a.sid,
         property=meta.get("property", old.get("property", props[0])),
